@@ -3,7 +3,7 @@ from vf.props import reg, COMMON_ASSUMPTIONS
 
 reg(Prop(
     'C14',
-    [Harness('c14_linalg', parts=16, slices=10, thorough_cfg='asan1')],
+    [Harness('c14_linalg', parts=16, slices=11, thorough_cfg='asan1')],
     rule='Operands are built as plain nested arrays of long long and handed to the library in every registered storage '
          'variant (static storage, a view over a foreign row-major array, rows of a static / of a view matrix as vectors, '
          'a byte view with proxy references for element access). Every library result is read back element by element '
